@@ -335,13 +335,33 @@ Proof.
   - apply Hs1; assumption.
 Qed.
 
-Lemma inv_update_auth c x s : Inv s -> 0 < x -> mem c (closed s) = false -> Inv (update_auth Current c x s).
+Lemma inv_update_auth_core c x s : Inv s -> 0 < x -> mem c (closed s) = false -> Inv (update_auth_core Current c x s).
 Proof.
-  intros [H1 H2 H3] Hx Hm. unfold update_auth. destruct (get c (reg s)) as [r|] eqn:E; [|split; assumption].
+  intros [H1 H2 H3] Hx Hm. unfold update_auth_core. destruct (get c (reg s)) as [r|] eqn:E; [|split; assumption].
   cbn [reconciles]. unfold with_reg, with_idx. split; proj.
   - apply nodup_set. exact H1.
   - apply nodup_set. unfold drop_stale. apply nodup_filter. exact H2.
   - eapply OK1_index_set; [apply OK1_mutate_reconcile; eassumption|apply get_set_same|reflexivity|reflexivity|exact Hx|exact Hm].
+Qed.
+
+Lemma inv_evict_holder x c s : Inv s -> Inv (evict_holder x c s).
+Proof.
+  intros H. unfold evict_holder. destruct (get x (idx s)) as [o|]; [|exact H].
+  destruct (o =? c); [exact H|]. apply inv_registry_remove. exact H.
+Qed.
+
+Lemma closed_evict_holder x c s : mem c (closed (evict_holder x c s)) = mem c (closed s).
+Proof.
+  unfold evict_holder. destruct (get x (idx s)) as [o|]; [|reflexivity].
+  destruct (o =? c) eqn:E; [reflexivity|]. apply N.eqb_neq in E.
+  unfold registry_remove. destruct (get o (reg s)); [|reflexivity].
+  rewrite closed_remove_locked. apply mem_add_other. intros Heq. apply E. symmetry. exact Heq.
+Qed.
+
+Lemma inv_update_auth c x s : Inv s -> 0 < x -> mem c (closed s) = false -> Inv (update_auth Current c x s).
+Proof.
+  intros Hinv Hx Hm. unfold update_auth. destruct (get c (reg s)); [|exact Hinv]. cbn [evicts].
+  apply inv_update_auth_core; [apply inv_evict_holder; exact Hinv|exact Hx|rewrite closed_evict_holder; exact Hm].
 Qed.
 
 Lemma inv_tunnel_remove c s : Inv s -> Inv (tunnel_remove c s).
